@@ -22,13 +22,13 @@ LEAVES = "cryptographic leaves idealised (tokens): a tag matches only for the se
 
 PROPS = {
     "C01": {
-        "modules": ["CC.Props.C01", "CC.Props.C01Alg", "CC.Props.NonVacuity"], "campaigns": [hist("C01", BOTH)],
-        "level_text": "Lean theorems over the executable model: points of `combine`, rights as permutation classes of points, decapsulation opens whenever one chain secret matches a component; over any field of scalars and any vector space of points the user's and the master key's ElGamal session keys equal the one of the encapsulation when the markers satisfy the tracing relation, and differ when they do not (C01Alg.session_key_agree, master_session_key_agree, wrong_markers_differ); the model is tied to the code by an exhaustive small-scope comparison of the rights of user keys / encapsulations and by comparing the real keygen+encaps+decaps verdict with the name-level cover relation of the Lean spec, in both cryptographic configurations",
+        "modules": ["CC.Props.C01", "CC.Props.C01Alg", "CC.Props.NonVacuity"], "campaigns": [hist("C01", BOTH), hist("C01h", ONE)],
+        "level_text": "Lean theorems over the executable model: points of `combine`, rights as permutation classes of points, decapsulation opens whenever one chain secret matches a component; over any field of scalars and any vector space of points the user's and the master key's ElGamal session keys equal the one of the encapsulation when the markers satisfy the tracing relation, and differ when they do not (C01Alg.session_key_agree, master_session_key_agree, wrong_markers_differ); the model is tied to the code by an exhaustive small-scope comparison of the rights of user keys / encapsulations and by comparing the real keygen+encaps+decaps verdict with the name-level cover relation of the Lean spec, in both cryptographic configurations; and, over histories (the reachable-world theorems), by random edit / update / store-load / keygen / refresh / encaps histories whose full decapsulation matrices (every key against every encapsulation, stale ones included) are compared with the model",
         "level_note": LEAVES + "; group algebra proved over an abstract field / vector space (C01Alg), not over the concrete curves; structures up to 2 (quick) / 3 (thorough) dimensions x 3 attributes in the correspondence, theorems unbounded",
     },
     "C02": {
-        "modules": ["CC.Props.C02", "CC.Props.NonVacuity"], "campaigns": [hist("C02", BOTH)],
-        "level_text": "Lean theorems: decapsulation never returns a value other than the encapsulated secret and returns none when no chain secret matches a component (foreign keys included); correspondence as C01 with the direction `not covered => None` checked on the real code against the Lean cover relation",
+        "modules": ["CC.Props.C02", "CC.Props.NonVacuity"], "campaigns": [hist("C02", BOTH), hist("C02h", ONE)],
+        "level_text": "Lean theorems: decapsulation never returns a value other than the encapsulated secret and returns none when no chain secret matches a component (foreign keys included); correspondence as C01 with the direction `not covered => None` checked on the real code against the Lean cover relation; history campaign as C01 (a key must never open what the model says it cannot, whatever was deleted, re-added, stored and loaded in between)",
         "level_note": LEAVES + "; excludes 2^-128 tag collisions",
     },
     "C15": {
